@@ -7,6 +7,7 @@ import (
 	"strings"
 	"testing"
 
+	apierrors "k8s.io/apimachinery/pkg/api/errors"
 	"k8s.io/apimachinery/pkg/api/meta"
 	"k8s.io/apimachinery/pkg/runtime"
 	"pgregory.net/rapid"
@@ -234,6 +235,14 @@ func runC09(rep Rep, c C09Case) {
 				extra++
 			}
 		}
+		// … and the first uncached read of the set (the confirmation before an adoption)
+		for i, a := range r0.Actions {
+			if a.Resource == "statefulsets" && a.Verb == "get" && !seen[i+1] {
+				seen[i+1] = true
+				positions = append(positions, i+1)
+				break
+			}
+		}
 	}
 	for _, k := range positions {
 		for _, kind := range c09Kinds {
@@ -281,6 +290,21 @@ func runC09(rep Rep, c C09Case) {
 						if F := canon(f.C); F != U {
 							rep.Violate("swallowed/"+target.Verb+"-"+target.Resource, "%s: the reconcile reported success although a call failed, and the state differs from the unfaulted run:\n%s\n%s",
 								desc, firstDiff(U, F), f.Transcript())
+						}
+					}
+				}
+				if !r.Crashed && !transient(kind) && syncErr == nil && k-1 < len(r.Actions) {
+					// an interference made this call fail for real (the object was gone / already there / modified).
+					// Answering that with success is acceptable only where the design tolerates it: adopting or
+					// releasing a pod that vanished, creating a revision that already exists with the same data,
+					// and updates that are retried on conflict.
+					if a := r.Actions[k-1]; a.Err != nil {
+						reason := string(apierrors.ReasonForError(a.Err))
+						tolerated := (a.Resource == "pods" && a.Verb == "patch" && (apierrors.IsNotFound(a.Err) || apierrors.IsInvalid(a.Err))) ||
+							(a.Resource == "controllerrevisions" && a.Verb == "create" && apierrors.IsAlreadyExists(a.Err)) ||
+							(a.Verb == "update" && apierrors.IsConflict(a.Err))
+						if !tolerated {
+							rep.Violate("swallowed-interference/"+a.Verb+"-"+a.Resource+"-"+reason, "%s: the call failed (%v) and the reconcile reported success\n%s", desc, a.Err, f.Transcript())
 						}
 					}
 				}
